@@ -80,7 +80,9 @@ def signature(b, uni, cols):
         sig = "C14:%s:wrong-slot" % kind
     else:
         sig = "C14:%s:wrong-endpoint:code-%s" % (kind, b["pos"])
-    if b["got"] == 0:
+    if b["got"] == 98:
+        sig += ":panic"
+    elif b["got"] == 0:
         sig += ":no-endpoint"
     elif not b["member"]:
         sig += ":nonmember"
@@ -100,6 +102,8 @@ def describe(b, uni, hist):
     def nm(e):
         if e == 0:
             return "<error>"
+        if e == 98:
+            return "<panic in Select>"
         if e > len(uni["eps"]):
             return "<unknown endpoint>"
         d = uni["eps"][e - 1]
@@ -234,7 +238,18 @@ def run(ctx):
         if h["label"].startswith("e2e"):
             sig = sig.replace("C14:", "C14:e2e:", 1)
         by_sig.setdefault(sig, []).append(b)
-        ctx.violate(sig, describe(b, uni, h),
+        what = describe(b, uni, h)
+        if b["cls"] == "kf-collision":
+            # name a history with the same member set whose real answers differ (two clients disagree)
+            for p in res["disagree"]:
+                if [b["h"], b["k"]] in p:
+                    o = p[0] if p[1] == [b["h"], b["k"]] else p[1]
+                    oh = hists[o[0] - 1]
+                    what += "; history %d (%s) reaches the same member set and the real selector answers %s there" % (
+                        oh["id"], ",".join("%s%s" % (st["op"], st["e"] or st["eps"]) for st in oh["steps"][:o[1]]),
+                        uni["eps"][oh["steps"][o[1] - 1]["ans"][b["i"] - 1] - 1]["host"])
+                    break
+        ctx.violate(sig, what,
                     {"kind": "oracle", "record": b, "universe": {k: uni[k] for k in ("id", "kind", "tag", "eps")},
                      "history": {"id": h["id"], "label": h["label"],
                                  "steps": [{k: st[k] for k in ("op", "e", "eps")} for st in h["steps"][:b["k"]]]},
